@@ -14,7 +14,7 @@ import sys
 
 REPO = os.environ.get('VAKT_REPO', '/repo')
 HERE = os.path.dirname(os.path.abspath(__file__))
-OUT = os.path.join(os.path.dirname(HERE), 'lean', 'Model', 'Generated.lean')
+OUT = os.path.join(os.environ.get('VERIF_LEAN_DIR') or os.path.join(os.path.dirname(HERE), 'lean'), 'Model', 'Generated.lean')
 
 
 class ExtractError(Exception):
